@@ -7,6 +7,10 @@
 //! * `ev <program> <input>`       parse + both evaluators + printing, in-process (`catch_unwind`, wall-clock guard)
 //! * `evx <program> <input>`      the same in a child process under `ulimit -v` (allocation failure = abort is visible)
 //! * `cli <jq|yq> <program> <input>`  the CLI binary under `ulimit -v`: exit status ∈ {0,1,2,3,5}
+//! * `evm <program> <input>`      both evaluators in a child process under `ulimit -v`, answered with the C23 run line
+//!                                (outputs in canonical JSON, then `END` / `ERR:<payload>` / `BREAK` / `HALT:n`): diffed
+//!                                with `Model/Jq` through the driver where the model has a verdict ("ends with outputs
+//!                                and/or a jq error" is checked against the model), crash bit otherwise
 //! * `guard <op> <args>`          the size guards as the implementation computes them (diffed exactly
 //!                                against `Model/JqGuards.lean`): `range`, `repeat`, `setpath`, `implode`
 use crate::c19::{cli, guarded, isolated, Fnv};
@@ -252,6 +256,28 @@ pub fn exec(a: &[&str]) -> String {
             let Ok(p) = String::from_utf8(parse_bytes(a[1])) else { return "BAD-UTF8".into() };
             let input = parse_bytes(a[2]);
             let r = guarded(NONTERM_SECS, move || eval_all(&p, &input));
+            if r == "TIMEOUT" {
+                "NONTERM".into()
+            } else {
+                r
+            }
+        }
+        // evmi: in-process body of `evm` (the C23 machinery: both evaluators, canonical run line)
+        "evmi" => {
+            // long run lines are exchanged as length + FNV-1a-64 of their bytes (child pipes are bounded)
+            let r = crate::c23::exec(&["ev", a[1], a[2]]);
+            if r.len() > 65536 {
+                let mut h: u64 = 0xcbf29ce484222325;
+                for b in r.as_bytes() {
+                    h = (h ^ *b as u64).wrapping_mul(0x100000001b3);
+                }
+                format!("LONG:{}:{h:016x}", r.len())
+            } else {
+                r
+            }
+        }
+        "evm" => {
+            let r = isolated(&format!("C30 evmi {} {}", a[1], a[2]), NONTERM_SECS + 2, Some(ULIMIT_KIB));
             if r == "TIMEOUT" {
                 "NONTERM".into()
             } else {
@@ -605,6 +631,24 @@ pub fn gen(tier: Tier, r: &mut Rng, emit: &mut dyn FnMut(String)) {
         let p = fill(r, t);
         let inp = *r.pick(INPUTS);
         emit(format!("C30 cli jq {} {}", hex_bytes(p.as_bytes()), hex_bytes(inp.as_bytes())));
+    }
+    // ---- extreme-operand programs whose run is also diffed with the jq model --------------------
+    for _ in 0..scale(300, 8_000) {
+        let p = if r.chance(1, 2) {
+            let t = *r.pick(TEMPLATES);
+            fill(r, t)
+        } else {
+            composed(r)
+        };
+        // builtins with no model (regex, dates, environment, streams of inputs) cannot get a verdict
+        if ["input", "halt", "env", "$ENV", "debug", "stderr", "now", "date", "time", "strf", "strp", "$__", "test(", "match(", "sub(", "scan(", "splits", "ascii", "@sh", "@base32"]
+            .iter()
+            .any(|w| p.contains(w))
+        {
+            continue;
+        }
+        let inp = *r.pick(INPUTS);
+        emit(format!("C30 evm {} {}", hex_bytes(p.as_bytes()), hex_bytes(inp.as_bytes())));
     }
     // ---- the guards, exactly ------------------------------------------------------------------
     for _ in 0..scale(300, 5000) {
